@@ -12,6 +12,8 @@ Bytes ref_pkcs7(const Bytes &p);
 // the whole encrypted file
 Bytes ref_encrypt_file(const Bytes &P, const uint8_t key[16], int cmode, int hmode, const Bytes &seedstr, int T, size_t CH);
 Bytes ref_iv_chain(const Bytes &seedstr, int T);
+// the same with the first IV given instead of the seed it is the SHA-1 of (for files whose seed is not known)
+Bytes ref_encrypt_file_iv0(const Bytes &P, const uint8_t key[16], int cmode, int hmode, const uint8_t iv0[20], int T, size_t CH);
 // inverse of the body (for oracles that need "what plaintext does this body decode to")
 Bytes ref_decrypt_body(const Bytes &body, const uint8_t key[16], const uint8_t iv16[16], int cmode, int T, size_t CH);
 void ref_aes_ecb_dec(const uint8_t key[16], const uint8_t in[16], uint8_t out[16]);
